@@ -2,7 +2,7 @@ import importlib.util, os
 _p = os.path.join(os.path.dirname(os.path.dirname(os.path.abspath(__file__))), "C01", "plan.py")
 _s = importlib.util.spec_from_file_location("plan_C01_for_C10", _p); _m = importlib.util.module_from_spec(_s); _s.loader.exec_module(_m)
 PLAN = dict(
-    id="C10", level="other", explanation="Value routing: for every primitive Value impl (u8..u128, i8..i128, usize, isize, bool, f32, f64, NonZero*, Wrapping, str, [u8], &T, Box<T>, Empty, display/debug wrappers) record() makes exactly one call of the stated visitor method with exactly the value (full domain; widening casts value-preserving; f32 widened bit-exactly), Empty makes none. ValueSet::record visits the Some values of its own callsite once each in declaration order (bounded: 4 fields, each own/foreign, Some/None). Macro layer (real event!/span! expansions and MacroCallsite, tracing-core's global state replaced by its contracts as in C01): a catalogue of forms - named fields, shorthand, `?` / `%` sigils in every position with identifier, dotted and string-literal names, Empty, format-string message - has every field / message expression evaluated exactly once when enabled and not at all when disabled by ANY stage (published max level, cached never, dynamic enabled = false), fields visited once each in declaration order with the message first, `%` rendering Display and `?` rendering Debug.",
+    id="C10", api_files=['tracing-core/src/field.rs'], level="other", explanation="Value routing: for every primitive Value impl (u8..u128, i8..i128, usize, isize, bool, f32, f64, NonZero*, Wrapping, str, [u8], &T, Box<T>, Empty, display/debug wrappers) record() makes exactly one call of the stated visitor method with exactly the value (full domain; widening casts value-preserving; f32 widened bit-exactly), Empty makes none. ValueSet::record visits the Some values of its own callsite once each in declaration order (bounded: 4 fields, each own/foreign, Some/None). Macro layer (real event!/span! expansions and MacroCallsite, tracing-core's global state replaced by its contracts as in C01): a catalogue of forms - named fields, shorthand, `?` / `%` sigils in every position with identifier, dotted and string-literal names, Empty, format-string message - has every field / message expression evaluated exactly once when enabled and not at all when disabled by ANY stage (published max level, cached never, dynamic enabled = false), fields visited once each in declaration order with the message first, `%` rendering Display and `?` rendering Debug.",
     functions_under_contract=['tracing-core/src/field.rs: impl_values! Value impls, Value for str / [u8] / &T / Box<T> / Wrapping / Empty / DisplayValue / DebugValue, ValueSet::record, FieldSet::{field,value_set}'],
     trusted_base=["Kani 0.68 / CBMC 6.11 / CaDiCaL; Kani's std build (nightly-2026-08-21), not the repo toolchain's", 'core::fmt::Formatter::pad stubbed to Ok(()) with -Z stubbing (panic-message formatting on infeasible error branches; no harness that uses it reads formatted text)', 'cfg(kani) thread_local! shim and once_cell::sync::Lazy contract stub (see overlay_additions)', 'macro harnesses: dispatch::get_default, LevelFilter::current and callsite::register replaced by contract stubs over tagged harness state (their contracts are C02 / C19 / C01)'],
     assumptions=["the text a %/? sigil produces is core::fmt's (only the routing to record_debug is checked)"],
